@@ -21,7 +21,7 @@ def coq_val(v):
 
 BIN={ast.Add:"py_add",ast.Sub:"py_sub",ast.Mult:"py_mul",ast.FloorDiv:"py_floordiv",ast.Mod:"py_mod",
      ast.BitXor:"py_xor",ast.BitAnd:"py_and",ast.RShift:"py_rshift"}
-CMP={ast.Eq:"py_eq",ast.NotEq:"py_ne"}
+CMP={ast.Eq:"py_eq",ast.NotEq:"py_ne",ast.Lt:"py_lt",ast.LtE:"py_le",ast.Gt:"py_gt",ast.GtE:"py_ge"}
 
 class Mod:
     def __init__(self, path, pymod):
